@@ -737,7 +737,9 @@ func (n *Net) dial(ctx context.Context, d *net.Dialer, network, address string) 
 	rec.Seq = w.Ev("dial %d to %s laddr=%s by %s", rec.ID, address, la, rec.Task)
 	if d.Control != nil {
 		rec.Controls++
+		n.mu.Lock()
 		n.CurDial = rec
+		n.mu.Unlock()
 		if err := d.Control(network, address, fakeRawConn{}); err != nil {
 			return n.dialRet(rec, nil, err, "control-error")
 		}
